@@ -24,6 +24,13 @@ var (
 )
 
 // c01Decode is the operation under test for one input.
+var c01Prop = func() string {
+	if p := os.Getenv("VERIF_PROP"); p != "" {
+		return p
+	}
+	return "C01"
+}()
+
 func c01Decode(b []byte) (accepted bool, panicked any) {
 	defer func() {
 		if r := recover(); r != nil {
@@ -159,6 +166,24 @@ func TestVerifC01Decoder(t *testing.T) {
 		own = env.InstallOwn(0xA5, false)
 		defer env.UninstallOwn()
 	}
+	poolProbe := func(cp []byte) {
+		// the free list of messages: whatever the decoder did with this input, a message taken from the pool afterwards is an empty
+		// one - a header or a record left over from an input that failed to decode would show up in somebody else's response
+		var probes []*Msg
+		for i := 0; i < 3; i++ {
+			pm := NewMsg()
+			probes = append(probes, pm)
+			if pm.Header != (Header{}) || len(pm.Questions)+len(pm.Answers)+len(pm.Authorities)+len(pm.Additionals) != 0 {
+				rep.Violate(c01Prop+":decoder:stale-pooled-message", fmt.Sprintf("after decoding %x a message taken from the pool is not empty: header %+v, %d/%d/%d/%d records", cp, pm.Header,
+					len(pm.Questions), len(pm.Answers), len(pm.Authorities), len(pm.Additionals)), map[string]any{"Input": fmt.Sprintf("%x", cp)})
+				pm.Header = Header{}
+				break
+			}
+		}
+		for _, pm := range probes {
+			ReleaseMsg(pm)
+		}
+	}
 	n := 0
 	try := func(b []byte) {
 		n++
@@ -175,6 +200,7 @@ func TestVerifC01Decoder(t *testing.T) {
 		if acc {
 			rep.Count("accepted", 1)
 		}
+		poolProbe(cp)
 		if own != nil {
 			for _, v := range own.Audit() {
 				rep.Violate("C20:decoder:ownership:"+strings.SplitN(v, " ", 3)[0]+"-"+strings.SplitN(v+"  ", " ", 3)[1], fmt.Sprintf("%s while decoding %x", v, cp), map[string]any{"Input": fmt.Sprintf("%x", cp)})
@@ -192,6 +218,7 @@ func TestVerifC01Decoder(t *testing.T) {
 		if p != nil {
 			rep.Violate("C01:decoder:panic", fmt.Sprintf("panic %v on input %x", p, b), map[string]any{"Input": x.Input})
 		}
+		poolProbe(b)
 		rep.Note(fmt.Sprintf("replayed, accepted=%v", acc))
 		return
 	}
